@@ -394,7 +394,7 @@ def gen(seed, family=None, knobs=None):
         "hosts": host_obs,
         "num_services": rnd.choice([1, 2, 3]), "num_applications": rnd.choice([1, 2, 3]), "num_folders": rnd.choice([1, 2]),
         "num_files": rnd.choice([1, 2]), "num_nics": rnd.choice([1, 2]),
-        "include_nmne": include_nmne, "include_num_access": rnd.random() < 0.5,
+        "include_nmne": include_nmne, "include_num_access": (rnd.random() < 0.5) if knobs.get("include_num_access") is None else bool(knobs["include_num_access"]),
         "file_system_requires_scan": requires_scan["file_system"], "services_requires_scan": requires_scan["services"],
         "applications_requires_scan": requires_scan["applications"], "include_users": rnd.random() < 0.7,
         "num_ports": rnd.choice([0, 2, 3]), "ip_list": all_ips, "wildcard_list": ["0.0.0.255", "0.0.0.1"],
